@@ -170,7 +170,7 @@ impl CompressionScheme {
     #[verifier::external_body]
     fn vx_decompress_from_take<R: Read, W: Write>(&self, reader: &mut R, take: &mut TakeStub, writer: &mut W) -> (r: Result<u64, CasObjectError>)
         ensures
-            final(reader).bytes() == old(reader).bytes(),
+            /*@AUX*/ final(reader).bytes() == old(reader).bytes(),   // frame: reading never changes the input
             old(writer).written().is_prefix_of(final(writer).written()),
             r matches Ok(n) ==> ({
                 let b = old(reader).bytes(); let p = old(reader).pos();
@@ -189,7 +189,7 @@ impl CompressionScheme {
 //@ ret r
 //@ contract
     ensures
-        final(reader).bytes() == old(reader).bytes(),
+        /*@AUX*/ final(reader).bytes() == old(reader).bytes(),   // frame: reading never changes the input
         r matches Ok(h) ==> header_at(h, old(reader).bytes(), old(reader).pos()) && final(reader).pos() == old(reader).pos() + 8,
 //@ end
 
@@ -200,7 +200,7 @@ impl CompressionScheme {
 //@ subst `.decompress_from_reader(&mut compressed_data_reader, writer)` => `.vx_decompress_from_take(reader, &mut compressed_data_reader, writer)` :: ... and the reader it wraps is passed to the call that consumes it (Take<&mut R> holds a `&mut`, which the stub cannot)
 //@ contract
     ensures
-        final(reader).bytes() == old(reader).bytes(),
+        /*@AUX*/ final(reader).bytes() == old(reader).bytes(),   // frame: reading never changes the input
         old(writer).written().is_prefix_of(final(writer).written()),
         /*@C07*/ r matches Ok(ret) ==> single_ok(old(reader).bytes(), old(reader).pos(), old(writer).written(), final(writer).written(), final(reader).pos(), ret),
 //@ end
@@ -209,7 +209,7 @@ impl CompressionScheme {
 //@ ret r
 //@ contract
     ensures
-        final(reader).bytes() == old(reader).bytes(),
+        /*@AUX*/ final(reader).bytes() == old(reader).bytes(),   // frame: reading never changes the input
         /*@C07*/ r matches Ok((buf, c, u)) ==> single_ok(old(reader).bytes(), old(reader).pos(), Seq::empty(), buf@, final(reader).pos(), (c, u)),
 //@ end
 
@@ -218,7 +218,7 @@ impl CompressionScheme {
 //@ contract
     requires multi_domain(old(reader).bytes(), old(reader).pos()), old(reader).pos() <= old(reader).bytes().len(),
     ensures
-        final(reader).bytes() == old(reader).bytes(),
+        /*@AUX*/ final(reader).bytes() == old(reader).bytes(),   // frame: reading never changes the input
         /*@C07*/ r matches Ok((n, idx)) ==> multi_ok(old(reader).bytes(), old(reader).pos(), old(writer).written(), final(writer).written(), n, idx@),
 //@ before `loop`
     let ghost b = reader.bytes(); let ghost p0 = reader.pos(); let ghost w0 = writer.written(); let ghost mut k: nat = 0;
@@ -259,7 +259,7 @@ impl CompressionScheme {
 //@ contract
     requires multi_domain(old(reader).bytes(), old(reader).pos()), old(reader).pos() <= old(reader).bytes().len(),
     ensures
-        final(reader).bytes() == old(reader).bytes(),
+        /*@AUX*/ final(reader).bytes() == old(reader).bytes(),   // frame: reading never changes the input
         /*@C07*/ r matches Ok((buf, idx)) ==> multi_data_ok(old(reader).bytes(), old(reader).pos(), Seq::empty(), buf@, idx@),
 //@ end
 
@@ -271,7 +271,7 @@ impl CompressionScheme {
 #[verifier::external_body]
 fn async_deserialize_chunk_header<R: AsyncRead + Unpin>(reader: &mut R) -> (r: Result<CASChunkHeader, CasObjectError>)
     ensures
-        final(reader).bytes() == old(reader).bytes(),
+        /*@AUX*/ final(reader).bytes() == old(reader).bytes(),   // frame: reading never changes the input
         r matches Ok(h) ==> header_at(h, old(reader).bytes(), old(reader).pos()) && final(reader).pos() == old(reader).pos() + 8,
 { unimplemented!() }
 
@@ -282,7 +282,7 @@ fn async_deserialize_chunk_header<R: AsyncRead + Unpin>(reader: &mut R) -> (r: R
 //@ subst `deserialize_chunk_header` => `async_deserialize_chunk_header` :: renaming (name clash); callee is a stub, see above
 //@ contract
     ensures
-        final(reader).bytes() == old(reader).bytes(),
+        /*@AUX*/ final(reader).bytes() == old(reader).bytes(),   // frame: reading never changes the input
         old(writer).written().is_prefix_of(final(writer).written()),
         /*@C07*/ r matches Ok(ret) ==> single_ok(old(reader).bytes(), old(reader).pos(), old(writer).written(), final(writer).written(), final(reader).pos(), ret)
             && well_formed_at(old(reader).bytes(), old(reader).pos()),
@@ -294,7 +294,7 @@ fn async_deserialize_chunk_header<R: AsyncRead + Unpin>(reader: &mut R) -> (r: R
 //@ subst `fn deserialize_chunk` => `fn async_deserialize_chunk` :: renaming (name clash)
 //@ contract
     ensures
-        final(reader).bytes() == old(reader).bytes(),
+        /*@AUX*/ final(reader).bytes() == old(reader).bytes(),   // frame: reading never changes the input
         /*@C07*/ r matches Ok((buf, c, u)) ==> single_ok(old(reader).bytes(), old(reader).pos(), Seq::empty(), buf@, final(reader).pos(), (c, u)),
 //@ end
 
@@ -304,7 +304,7 @@ fn async_deserialize_chunk_header<R: AsyncRead + Unpin>(reader: &mut R) -> (r: R
 //@ contract
     requires multi_domain(old(reader).bytes(), old(reader).pos()), old(reader).pos() <= old(reader).bytes().len(),
     ensures
-        final(reader).bytes() == old(reader).bytes(),
+        /*@AUX*/ final(reader).bytes() == old(reader).bytes(),   // frame: reading never changes the input
         /*@C07*/ r matches Ok((n, idx)) ==> multi_ok(old(reader).bytes(), old(reader).pos(), old(writer).written(), final(writer).written(), n, idx@),
 //@ before `loop`
     let ghost b = reader.bytes(); let ghost p0 = reader.pos(); let ghost w0 = writer.written(); let ghost mut k: nat = 0;
@@ -345,7 +345,7 @@ fn async_deserialize_chunk_header<R: AsyncRead + Unpin>(reader: &mut R) -> (r: R
 //@ contract
     requires multi_domain(old(reader).bytes(), old(reader).pos()), old(reader).pos() <= old(reader).bytes().len(),
     ensures
-        final(reader).bytes() == old(reader).bytes(),
+        /*@AUX*/ final(reader).bytes() == old(reader).bytes(),   // frame: reading never changes the input
         /*@C07*/ r matches Ok((buf, idx)) ==> multi_data_ok(old(reader).bytes(), old(reader).pos(), Seq::empty(), buf@, idx@),
 //@ end
 
